@@ -158,7 +158,7 @@ mod verif_c11 {
 
     //@STUBS
     #[kani::proof]
-    #[kani::unwind(4)]
+    #[kani::unwind(6)]
     fn c11_dataset_graph_mutations() {
         let mut d = MRec::default();
         let answer: bool = kani::any();
@@ -203,7 +203,7 @@ mod verif_c11 {
     //@STUBS
     #[kani::proof]
     #[kani::unwind(4)]
-    fn c11_graph_as_dataset() {
+    fn c11_graph_as_dataset_queries() {
         let g = GRec::default();
         let v = GraphAsDataset::new(&g);
         // a selector that includes the default graph: forwarded, quad is in the default graph
@@ -219,5 +219,62 @@ mod verif_c11 {
         assert!(g.calls.get() == 1);
         // contains: only in the default graph
         assert!(matches!(v.contains(K(1), K(2), K(3), Some(K(8))), Ok(false)));
+    }
+
+    /// mutable recording graph for GraphAsDataset's MutableDataset impl
+    #[derive(Default)]
+    pub struct MGRec {
+        pub last: Cell<[u8; 3]>,
+        pub was_insert: Cell<bool>,
+        pub answer: Cell<bool>,
+        pub n: Cell<u8>,
+    }
+    impl Graph for MGRec {
+        type Triple<'x> = [K; 3];
+        type Error = Infallible;
+        fn triples(&self) -> impl Iterator<Item = GResult<Self, Self::Triple<'_>>> + '_ {
+            std::iter::empty()
+        }
+    }
+    impl MutableGraph for MGRec {
+        type MutationError = Infallible;
+        fn insert<TS: Term, TP: Term, TO: Term>(&mut self, s: TS, p: TP, o: TO) -> crate::graph::MgResult<Self, bool> {
+            self.last.set([id(s), id(p), id(o)]);
+            self.was_insert.set(true);
+            self.n.set(self.n.get() + 1);
+            Ok(self.answer.get())
+        }
+        fn remove<TS: Term, TP: Term, TO: Term>(&mut self, s: TS, p: TP, o: TO) -> crate::graph::MgResult<Self, bool> {
+            self.last.set([id(s), id(p), id(o)]);
+            self.was_insert.set(false);
+            self.n.set(self.n.get() + 1);
+            Ok(self.answer.get())
+        }
+    }
+
+    //@STUBS
+    #[kani::proof]
+    #[kani::unwind(6)]
+    fn c11_graph_as_dataset_mutations() {
+        let mut g = MGRec::default();
+        let answer: bool = kani::any();
+        g.answer.set(answer);
+        let ins: bool = kani::any();
+        let named: bool = kani::any();
+        let gn = if named { Some(K(7)) } else { None };
+        let r = {
+            let mut v = GraphAsDataset::new(&mut g);
+            if ins { v.insert(K(1), K(2), K(3), gn) } else { v.remove(K(1), K(2), K(3), gn) }
+        };
+        if named {
+            // only the default graph exists: nothing reaches the graph; insert is refused, remove finds nothing
+            assert!(g.n.get() == 0);
+            if ins { assert!(r.is_err()); } else { assert!(matches!(r, Ok(false))); }
+        } else {
+            assert!(g.n.get() == 1);
+            assert!(g.was_insert.get() == ins); // the SAME operation reaches the graph
+            assert!(g.last.get() == [1, 2, 3]);
+            assert!(matches!(r, Ok(b) if b == answer));
+        }
     }
 }
